@@ -47,6 +47,19 @@ static int run(const std::string &ob, const Args &a)
         }
         return bad;
     }
+    if (ob.find("powcomp") != std::string::npos) {
+        long qn = has(a, "Z.imaginary_.num") ? int_of(a, "Z.imaginary_.num") : 5, qd = has(a, "Z.imaginary_.den") ? int_of(a, "Z.imaginary_.den") : 7;
+        if (qn == 0) qn = 1; if (qd <= 0) qd = 1; if (qn > 12 || qn < -12) qn = 5; if (qd > 12) qd = 7;
+        RCP<const Number> base = Complex::from_two_nums(*integer(0), *Rational::from_two_ints(qn, qd));
+        for (long n = -8; n <= 8; n++) {                              // every exponent residue, both signs
+            RCP<const Number> r = base->pow(*integer(n)), chk = n < 0 ? r : rcp_static_cast<const Number>(one);
+            for (long k = 0; k < (n < 0 ? -n : n); k++) chk = chk->mul(*base);          // n < 0: r * base^|n| must be 1;  n >= 0: base^n by repeated multiplication
+            if (n < 0 ? !eq(*chk, *one) : !eq(*chk, *r)) { std::cout << "(" << base->__str__() << ")**" << n << " = " << r->__str__() << "\nREPRODUCED: not the exact power (multiplying back does not give 1)\n"; return 1; }
+            if (n % 2 == 0 && !(is_a<Integer>(*r) || is_a<Rational>(*r))) { std::cout << "(" << base->__str__() << ")**" << n << " = " << r->__str__() << "\nREPRODUCED: an even power of an imaginary number is not returned as a real number\n"; return 1; }
+        }
+        std::cout << "not reproduced for exponents -8..8\n";
+        return 0;
+    }
     std::cout << "no concretisation for " << ob << "\n";
     return 2;
 }
